@@ -1265,6 +1265,23 @@ func c12Explains(min, f []c12Ev) bool {
 	return false
 }
 
+// c12NormalForm gives order variants of one pattern the same spelling: a join
+// commutes with the events of other receivers, so every join is moved as late as
+// possible (right before the joining receiver's next event); then receivers are
+// renamed in order of appearance.
+func c12NormalForm(h []c12Ev) []c12Ev {
+	out := append([]c12Ev{}, h...)
+	for i := len(out) - 2; i >= 0; i-- {
+		if out[i].K != c12Join {
+			continue
+		}
+		for j := i; j+1 < len(out) && out[j+1].P != out[j].P; j++ {
+			out[j], out[j+1] = out[j+1], out[j]
+		}
+	}
+	return c12Canon(out)
+}
+
 // c12Key derives the finding key from the SHAPE of the minimal failing history.
 func c12Key(max int, min []c12Ev, kind string, viols []c12Viol) (key, class string) {
 	canon := c12Canon(min)
@@ -1327,7 +1344,7 @@ func c12Key(max int, min []c12Ev, kind string, viols []c12Viol) (key, class stri
 	case last.K == c12Tick && kind == "queue-dropped":
 		return "history:cleanup-drops-queued-receiver", "idle cleanup forgets a receiver that is still waiting in the queue"
 	}
-	return fmt.Sprintf("history:%s:max%d:%s", kind, max, shape), "minimal failing pattern " + shape
+	return fmt.Sprintf("history:%s:max%d:%s", kind, max, c12HistStr(c12NormalForm(min), ".")), "minimal failing pattern " + shape
 }
 
 // ---------------------------------------------------------------------------
@@ -1599,7 +1616,12 @@ func runC12(e *Env) {
 		}
 	}
 
-	e.R.Rule = "histories over receivers {a,b,c} of J(oin) A(ccept, repeatable) L(eave) K(transfer returns nil) F(transfer returns error) S/s(transfer whose context was cancelled returns late with error/nil) T(clock +6 min and one idle-cleanup tick, TTL 10 min), membership-consistent (join only for non-members, accept/leave only for members, returns only for running transfers), for max-receivers 1..3, each on a fresh real SnapshotSender driven through handleEnvelope/cleanup with a stub transfer function and a real wsclient.Conn to a recording endpoint; after EVERY event: quiescence by sender.runTransfer.exit hit count + marker round trip + stub start count, then comparison with the reference model. Exhaustive part: every such history of the stated length up to receiver renaming (all shorter ones are its prefixes); a history is cut at its first refuting prefix. Random part: weighted random walks (classes free / avoid-known / duplicate-join). A history counts as distinct non-trivial when it reached quiescence after every executed event and started >= 1 transfer; distinct by (max, event string)."
+	var bs []string
+	for _, b := range bounds {
+		bs = append(bs, fmt.Sprintf("max-receivers=%d: every history of length %d (and so every shorter one)", b.Max, b.Len))
+	}
+	e.R.SetExtra("exhaustive_bound", strings.Join(bs, "; ")+"; over events J A L K F S T, receivers {a,b,c} up to renaming, membership-consistent; a history is cut at its first refuting prefix and that prefix is not extended")
+	e.R.Rule = "histories over receivers {a,b,c} of J(oin) A(ccept, repeatable) L(eave) K(transfer returns nil) F(transfer returns error) S/s(transfer whose context was cancelled returns late with error/nil) T(clock +6 min and one idle-cleanup tick, TTL 10 min), membership-consistent (join only for non-members, accept/leave only for members, returns only for running transfers), for max-receivers 1..3, each on a fresh real SnapshotSender driven through handleEnvelope/cleanup with a stub transfer function and a real wsclient.Conn to a recording endpoint; after EVERY event: quiescence by sender.runTransfer.exit hit count + marker round trip + stub start count, then comparison with the reference model. Exhaustive part (" + strings.Join(bs, "; ") + "): every such history up to receiver renaming; a history is cut at its first refuting prefix, which is not extended. Random part: weighted random walks (classes free / avoid-known / duplicate-join, the last adds R = join of a receiver that is already a member). A history counts as distinct non-trivial when it reached quiescence after every executed event and started >= 1 transfer; distinct by (max, event string up to the cut)."
 	e.R.SetExtra("histories_run", atomic.LoadInt64(&x.runs))
 	e.R.SetExtra("events_executed_and_checked", atomic.LoadInt64(&x.events))
 	e.R.SetExtra("stub_transfer_starts_observed", atomic.LoadInt64(&x.starts))
